@@ -1210,3 +1210,41 @@ def overflow_at_max(node):
         return None
     bad.sort(key=lambda t_: t_[0])
     return bad[0][1], bad[0][2]
+
+
+# ---------------------------------------------------------------------------------------------
+# R-PREC: no statistic is routed through f32
+
+
+def r_prec(ctx, db, est, scen):
+    """every accessor result and every new field value of add/merge is computed in f64: a
+    non-constant value converted to f32 (24 bits) is outside every error envelope of the properties"""
+    n_ob = 0
+
+    def has_f32(v):
+        for x in all_nodes(v, set()):
+            if x[0] == "fn" and x[1] == "lossy_f32":
+                return x
+        return None
+
+    def check(where, fn, v):
+        nonlocal n_ob
+        n_ob += 1
+        x = has_f32(v)
+        ctx.ob("R-PREC", "%s:f64-only" % where, fn, R.fn_site(db, fn), x is None,
+               "%s: computed in f64 throughout" % where if x is None else
+               "%s: the value %s is converted to f32 (24 significant bits) on the way to the result — far outside the envelope" % (where, F.show(x[2])[:120]))
+    for name, (p, paths) in sorted(scen["acc"].items()):
+        for pth in paths:
+            if pth.status == "return" and is_float(pth.ret[0]):
+                check(name, p, pth.ret[0])
+    for kind in ("add", "merge"):
+        for label, paths in scen[kind]:
+            fn = est.add if kind == "add" else est.merge
+            for pth in paths:
+                if pth.status != "return":
+                    continue
+                for leaf, v in sorted(pth.ret[1].items()):
+                    if is_float(v) and v != pth.ret[0].get(leaf):
+                        check("%s:%s" % (kind, leaf), fn, v)
+    return n_ob
